@@ -171,7 +171,7 @@ func (changes *Changes) GetDSC() (*DSC, error) {
 func (changes *Changes) checkFilenames() error {
 	for _, file := range changes.Files {
 		name := file.Filename
-		if name == "." || name == ".." || filepath.Base(name) != name {
+		if name == "" || name == "." || name == ".." || strings.ContainsAny(name, "/"+string(filepath.Separator)) {
 			return fmt.Errorf("Refusing to touch '%s': not a plain file name", name)
 		}
 	}
